@@ -12,6 +12,9 @@ from datetime import datetime, timezone
 from fractions import Fraction as Fr
 from typing import Any
 
+import asyncio
+from datetime import timedelta
+
 from hypothesis import strategies as st
 
 from frequenz.client.microgrid import ComponentMetricId as M
@@ -21,6 +24,7 @@ from frequenz.sdk.timeseries.battery_pool._metric_calculator import (
     SoCCalculator,
 )
 
+from .. import fakes, world
 from ..core import Verdict
 
 IDS = ("C18",)
@@ -38,7 +42,10 @@ RULE = {
         "SoC limits equal or >=1e-3 apart, SoC on/inside/outside its limits), a working subset, "
         "batteries missing from the data altogether, one SoC bump and one capacity scale factor; "
         "checked against an exact Fraction reference of the documented formulas and the relations "
-        "range/monotone/scale. Non-trivial = >=2 qualifying batteries with different limits, or a "
+        "range/monotone/scale; a fifth of the cases send the same records as API messages (absent metric = NaN field) to a real "
+        "SendOnUpdate aggregator with LatestBatteryMetricsFetcher on the fake API, interleaved with working-set changes and "
+        "clock advances (data time-out 2 s), and compare the latest emitted value with the reference on the modelled cache. "
+        "Non-trivial = >=2 qualifying batteries with different limits, or a "
         "disqualified battery next to a qualifying one, or total usable capacity 0; distinct by "
         "SHA-1 of the canonical JSON case."
     )
@@ -48,7 +55,7 @@ ASSUMPTIONS = [
     "SoC limits closer than 1e-3 but not equal are not generated (the code documents isclose limits as equal)",
     "tolerance 1e-7 percentage points / 1e-9 relative on capacity",
 ]
-MIN_LABELS = {"C18": {"disqualified": 0.10, "equal_limits": 0.05, "zero_total": 0.01, "multi_qualifying": 0.2}}
+MIN_LABELS = {"C18": {"pipeline": 0.05, "disqualified": 0.10, "equal_limits": 0.05, "zero_total": 0.01, "multi_qualifying": 0.2}}
 
 
 def _num() -> st.SearchStrategy[float]:
@@ -97,14 +104,30 @@ def _battery(draw: Any) -> dict[str, Any]:
 
 
 def strategy(tier: str, pid: str = "C18") -> st.SearchStrategy[Any]:
+    del pid
     nmax = 6 if tier == "quick" else 8
-    return st.fixed_dictionaries(
+    pure = st.fixed_dictionaries(
         {
             "bats": st.lists(_battery(), min_size=1, max_size=nmax),
             "bump": st.tuples(st.integers(0, nmax - 1), st.one_of(st.sampled_from([1e-6, 0.5, 5.0, 100.0]), st.floats(0, 120))),
             "scale": st.sampled_from([0.5, 2.0, 1000.0, 3.0]),
         }
     )
+    # pipeline: the same battery records arrive as API messages (absent metric = NaN field) at a real
+    # SendOnUpdate aggregator, interleaved with working-set changes and clock advances
+    op = st.one_of(
+        st.tuples(st.just("msg"), st.integers(0, 3), _battery()).map(list),
+        st.tuples(st.just("msg"), st.integers(0, 3), _battery()).map(list),
+        st.tuples(st.just("work"), st.lists(st.booleans(), min_size=4, max_size=4)).map(list),
+        st.tuples(st.just("adv"), st.sampled_from([0.3, 0.7, 1.1, 2.3])).map(list),
+    )
+    pipeline = st.fixed_dictionaries({
+        "kind": st.just("pipeline"),
+        "nbat": st.integers(1, 4),
+        "metric": st.sampled_from(["soc", "capacity"]),
+        "ops": st.lists(op, min_size=3, max_size=14),
+    })
+    return st.one_of(pure, pure, pure, pure, pipeline)
 
 
 def _mk(bats: list[dict[str, Any]]) -> tuple[dict[int, ComponentMetricsData], set[int]]:
@@ -163,8 +186,129 @@ def _calc(bats: list[dict[str, Any]]) -> tuple[float | None, float | None]:
     return (None if soc is None else soc.as_percent()), (None if cap is None else cap.as_watt_hours())
 
 
+def _run_pipeline(case: dict[str, Any], v: Verdict) -> None:
+    from frequenz.client.microgrid import Connection  # pylint: disable=import-outside-toplevel
+
+    from frequenz.sdk.timeseries.battery_pool._methods import SendOnUpdate  # pylint: disable=import-outside-toplevel
+
+    nbat = case["nbat"]
+    bat_id = [9 + 10 * b for b in range(nbat)]
+    inv_id = [8 + 10 * b for b in range(nbat)]
+    v.labels.add("pipeline")
+    max_age = 2.0  # MAX_BATTERY_DATA_AGE_SEC
+    cache: dict[int, dict[str, Any] | None] = {b: None for b in range(nbat)}
+    armed: dict[int, float] = {}
+    working = set(range(nbat))
+
+    def expire(now: float) -> None:
+        for b in range(nbat):
+            while armed[b] + max_age <= now:
+                armed[b] += max_age
+                cache[b] = {"cap": None, "lo": None, "hi": None, "soc": None}
+                v.labels.add("data_timeout")
+
+    def expected() -> tuple[Fr | None, Fr | None, int, int]:
+        recs = []
+        for b in range(nbat):
+            c = cache[b]
+            recs.append({"cap": None, "lo": None, "hi": None, "soc": None, **(c or {}),
+                         "in_data": c is not None, "working": b in working})
+        return _reference(recs)
+
+    async def scenario() -> None:
+        loop = asyncio.get_running_loop()
+        comps = {fakes.grid(1)}
+        conns = set()
+        for b in range(nbat):
+            comps |= {fakes.bat_inverter(inv_id[b]), fakes.battery(bat_id[b])}
+            conns |= {Connection(1, inv_id[b]), Connection(inv_id[b], bat_id[b])}
+        api = fakes.FakeApi(comps, conns)
+        with fakes.connection(fakes.build_graph(comps, conns), api):
+            calc: Any = SoCCalculator(set(bat_id)) if case["metric"] == "soc" else CapacityCalculator(set(bat_id))
+            agg = SendOnUpdate(working_batteries=set(bat_id), metric_calculator=calc,
+                               min_update_interval=timedelta(seconds=0.05))
+            rx = agg.new_receiver(limit=10000)
+            await world.settle(2)
+            for b in range(nbat):
+                armed[b] = loop.time()
+            latest: Any = None
+            got_any = False
+            for step, op in enumerate(case["ops"]):
+                where = f"step {step} {op[0]}"
+                if op[0] == "msg":
+                    b = op[1] % nbat
+                    rec = op[2]
+                    nan = float("nan")
+                    await api.send(bat_id[b], fakes.battery_data(
+                        bat_id[b], world.now(),
+                        capacity=nan if rec["cap"] is None else float(rec["cap"]),
+                        soc=nan if rec["soc"] is None else float(rec["soc"]),
+                        soc_lower_bound=nan if rec["lo"] is None else float(rec["lo"]),
+                        soc_upper_bound=nan if rec["hi"] is None else float(rec["hi"])))
+                    expire(loop.time())
+                    cache[b] = {k: rec[k] for k in ("cap", "lo", "hi", "soc")}
+                    armed[b] = loop.time()
+                    if None in cache[b].values():
+                        v.labels.add("nan_metric_in_message")
+                elif op[0] == "work":
+                    new = {b for b in range(nbat) if op[1][b]}
+                    expire(loop.time())
+                    for b in working - new:
+                        cache[b] = None
+                    if working - new:
+                        v.labels.add("battery_stops_working")
+                    working.clear()
+                    working.update(new)
+                    agg.update_working_batteries({bat_id[b] for b in new})
+                else:
+                    await asyncio.sleep(op[1])
+                # let the aggregator flush (first output only after WAIT_FOR_COMPONENT_DATA_SEC = 2 s)
+                await asyncio.sleep(0.2 if loop.time() > 2.5 else 2.6 - loop.time())
+                await world.settle(2)
+                expire(loop.time())
+                while True:
+                    try:
+                        latest = await asyncio.wait_for(rx.receive(), timeout=1e-6)
+                        got_any = True
+                    except asyncio.TimeoutError:
+                        break
+                soc_ref, cap_ref, _, _ = expected()
+                ref = soc_ref if case["metric"] == "soc" else cap_ref
+                if not got_any:
+                    if ref is not None:
+                        v.fail(f"{where}: nothing emitted although the documented aggregate is {float(ref)}")
+                        break
+                    continue
+                got = None
+                if latest.value is not None:
+                    got = latest.value.as_percent() if case["metric"] == "soc" else latest.value.as_watt_hours()
+                if (got is None) != (ref is None):
+                    v.fail(f"{where}: latest emitted {case['metric']} is {got}, documented aggregate of the cached data of the "
+                           f"working batteries is {None if ref is None else float(ref)} (cache {cache}, working {sorted(working)})")
+                    break
+                if got is not None and ref is not None:
+                    if case["metric"] == "soc":
+                        if not 0.0 <= got <= 100.0:
+                            v.fail(f"{where}: SoC {got} outside [0, 100]")
+                            break
+                        if ref >= 0 and abs(got - float(ref)) > TOL:
+                            v.fail(f"{where}: latest emitted SoC {got!r} != documented weighted mean {float(ref)!r} "
+                                   f"(cache {cache}, working {sorted(working)})")
+                            break
+                    elif abs(got - float(ref)) > 1e-9 * max(1.0, abs(float(ref))):
+                        v.fail(f"{where}: latest emitted capacity {got!r} != documented sum {float(ref)!r}")
+                        break
+            await agg.stop()
+
+    world.run(scenario)
+    v.nontrivial = bool(v.labels & {"nan_metric_in_message", "battery_stops_working", "data_timeout"})
+
+
 def run_case(case: Any, pid: str) -> Verdict:
     v = Verdict()
+    if case.get("kind") == "pipeline":
+        _run_pipeline(case, v)
+        return v
     bats = case["bats"]
     try:
         soc, cap = _calc(bats)
@@ -238,6 +382,8 @@ def run_case(case: Any, pid: str) -> Verdict:
 
 
 def describe(case: Any) -> Any:
+    if case.get("kind") == "pipeline":
+        return case
     return {
         "batteries": [
             {k: b[k] for k in ("cap", "lo", "hi", "soc", "in_data", "working")} for b in case["bats"]
